@@ -23,32 +23,31 @@ from pathlib import Path
 
 ID = "C11"
 LEVEL_TEXT = (
-    "17 theorems (all closed under the global context) over all object stores -- arbitrary graphs of modules, classes, functions, "
-    "attributes and aliases with resolved / unresolvable / cyclic targets, inherited members, __all__, imports and explicit public "
-    "flags -- about a model of find_breaking_changes that mirrors the seen_paths guard: a package compared with itself reports "
-    "nothing; any compatibility extension (members added anywhere, parameters added that leave C10's fdiff empty -- proved for optional "
-    "keyword-only ones --, arbitrary changes outside the publicly reachable part) reports nothing; every report stems from a pair "
-    "reachable from the roots through public members and alias targets only, and a reported removal is a public member of such an "
-    "object (private and imported-but-not-exported objects are never reported); every local incompatibility of a reached object with "
-    "its counterpart (removed public member, kind change, removed base, changed attribute value, C10 parameter breakages) is reported "
-    "whenever the old->new counterpart map is consistent (decidable known-gap predicate of finding C11-F2; refuted without it by a "
-    "computed witness); unresolvable targets never raise and, on well-formed stores without cyclic targets, the traversal terminates "
-    "with a result for fuel = number of old objects + 1 (seen_paths is the measure); a cyclic target aborts the comparison (finding "
-    "C11-F1, computed witness); exit code 0 iff the comparison completed and reported nothing; is_public equals its documented ladder "
-    "except under an empty __all__ (finding C11-F3). The model is tied to diff.py / mixins.py / cli.py on every run by comparing "
-    "(breakage kind, object path, parameter) multisets and per-member is_public on generated packages x edit scripts, an exhaustive "
-    "is_public ladder (900 input combinations), and the CLI exit code on throw-away git repositories; the property itself is evaluated "
-    "directly on the implementation against an independent reading of the documented public/private rules.")
+    "14 theorems (all closed under the global context, no known-gap hypothesis left) over all object stores -- arbitrary graphs of modules, "
+    "classes, functions, attributes and aliases with resolved / unresolvable / cyclic targets, inherited members, __all__, imports and "
+    "explicit public flags -- about a model of find_breaking_changes that mirrors the seen_paths guard on (old, new) pairs: a package "
+    "compared with itself reports nothing; any compatibility extension (members added anywhere, parameters added that leave C10's fdiff "
+    "empty -- proved for optional keyword-only ones --, arbitrary changes outside the publicly reachable part) reports nothing; every report "
+    "stems from a pair reachable from the roots through public members and alias targets only, and a reported removal is a public member "
+    "of such an object (private and imported-but-not-exported objects are never reported); every pair the comparison must visit (public "
+    "members of same-kind containers, resolvable alias targets: re-exports, aliases, inherited members) is examined and each of its local "
+    "incompatibilities (removed public member, kind change, removed base, changed attribute value, C10 parameter breakages) is reported; "
+    "unresolvable and cyclic targets are skipped and on well-formed stores the comparison always completes with fuel = |old| * |new| + 1 "
+    "(seen_paths is the measure); exit code 0 iff the comparison completed and reported nothing; is_public equals the ladder its docstring "
+    "words, rule by rule. The model is tied to diff.py / mixins.py / cli.py on every run by comparing (breakage kind, object path, "
+    "parameter) multisets and per-member is_public on generated packages x edit scripts, an exhaustive is_public ladder (900 input "
+    "combinations), and the CLI exit code on throw-away git repositories (single package and the pkg -> _pkg facade layout); the property "
+    "itself is evaluated directly on the implementation against an independent reading of the documented public/private rules, with one "
+    "expectation per incompatible edit of every script.")
 LEVEL_NOTE = (
     "Trusted: Coq kernel, extraction, the harness abstraction Griffe tree -> store (object identity = path, asserted per case; the outcome "
     "of alias.target, inherited_members and the MRO are read from Griffe, not re-modelled: C06/C07 cover them), value/base/default equality "
     "interned by Python ==. Breakages are modelled as a multiset (generator order is not modelled); parameter rules are C10's fdiff, reused. "
     "The is_public ladder is hand-modelled (no translator) and compared with the implementation exhaustively over its inputs every run. "
-    "The silence theorems identify old and new objects of the unchanged part by index (a renaming of the new store). Completeness is stated "
-    "for counterpart pairs; a public re-export whose target disappeared while the import stayed is unresolvable in new and therefore skipped, "
-    "as the property demands, so that removal is not reported. Breakage.explain() styles are exercised for crashes only. Known findings: F1 "
-    "cyclic re-export raises CyclicAliasError, F2 seen_paths (old paths only) suppresses the comparison of a re-export / inherited member "
-    "whose old target was already compared, F3 empty __all__ is ignored by is_public contrary to its docstring.")
+    "The silence theorems identify old and new objects of the unchanged part by index (a renaming of the new store). A public re-export "
+    "whose target disappeared while the import stayed is unresolvable in new and therefore skipped, as the property demands, so that removal "
+    "is not reported. Breakage.explain() styles are exercised for crashes only. Findings F1 (cyclic re-export aborted), F2 (seen_paths on old "
+    "paths only) and F3 (empty __all__ ignored) are repaired in /repo; their witnesses are regression cases that must pass.")
 MODEL = ("Model.C11_apidiff", "run_C11")
 COQ_TARGETS = ["Proofs/C11_apidiff.vo"]
 RULE = ("seeded random packages (2-5 modules incl. private modules and a sub-package; functions with C10-style signatures, classes with "
